@@ -42,6 +42,16 @@ for _pid, _text, _ref in [
 ]:
     CLAIMED[_pid] = dict(cat="model_checking", text=_text, note=MUX_NOTE, technique=MUX_TECH, ref=_ref)
 
+SRV_NOTE = ("one writer goroutine that finally calls Close; Low-Latency, one H264 stream; goroutine states read from the Go "
+            "runtime at quiescent points; schedules at the granularity of the muxer's critical sections")
+SRV_TECH = "TLA+ model (MuxerServe.tla) checked by TLC (safety + liveness); TLC-generated and attack schedules replayed on the real Muxer with gated goroutines; TLC trace validation"
+CLAIMED["C06"] = dict(cat="model_checking", note=SRV_NOTE, technique=SRV_TECH, ref="7 C06",
+  text="MuxerServe.tla models writer / handlers / Close over the mutex and condition variable; TLC checks that a parked blocking reload or preload hint is never satisfiable at a quiescent point, that a 200 contains the requested part, that a 400 is immediate and never for the open segment or the next, and refutes the weakened variants; the schedules are replayed on the real Muxer and the same predicates are evaluated on the observed responses and goroutine states")
+CLAIMED["C07"] = dict(cat="model_checking", note=SRV_NOTE, technique=SRV_TECH, ref="7 C07",
+  text="Close is three model steps (mark under the mutex, Broadcast, per-stream close); TLC checks that after Close returned nobody is left inside, the mutex is free and storage is released for every interleaving with waking waiters (and liveness CloseUnblocks); attack schedules of the weakened variants (stream flag outside the lock, hint handler keeping the lock) and random schedules are replayed on the real Muxer; the directory must be empty after Close in every variant")
+CLAIMED["C08"] = dict(cat="model_checking", note=SRV_NOTE + "; memory-level races are judged by the Go race detector on the same schedules plus a free-running stress run", technique=SRV_TECH + "; Go race detector", ref="7 C08",
+  text="every playlist response must be the snapshot of the state of its quiescent point and satisfy the single-playlist invariants; no panic; the harness is additionally built with -race and run over gated schedules and a free-running stress (one writer with parameter changes, many readers of every URL kind, RAM and disk)")
+
 PENDING = "check not built yet in this session (planned, see DESIGN.md section 7); will be claimed once its TLA+ model and conformance harness are committed"
 
 
